@@ -2461,6 +2461,8 @@ pub fn run(ctx: &Ctx, st: &mut Stats) {
     TYPESET.run_random(ctx, st, ctx.tier.pick(16_000, 600_000), arb_fn);
 
     stack_probe(ctx, st);
+    // coverage-guided tier over the same oracle: raw text, and generator choices mutated by libFuzzer
+    crate::fuzzing::tier_stage(ctx, st, &[("c06_text", 200_000), ("c06_grammar", 100_000), ("c06_mutant", 100_000)]);
 }
 
 pub fn replay(driver: &str, case: &serde_json::Value) -> Result<(Outcome, Option<&'static str>), String> {
